@@ -89,6 +89,31 @@ def memo_transparent(ctx, full=False):
     return len(keys)
 
 
+def _fresh_local(fn, segs):
+    """True when the local `segs` is bound (by its only `let`) to the result of a constructor call (`new` / `from_*`): a fresh value has empty memo cells"""
+    if len(segs) != 1:
+        return False
+    inits = []
+
+    def v(n):
+        if n.get('k') == 'local':
+            pat = n.get('pat') or {}
+            if pat.get('k') == 'ptype':
+                pat = pat.get('pat') or {}
+            if pat.get('k') == 'pident' and pat.get('name') == segs[0]:
+                inits.append(n.get('init'))
+    walk(fn.body, v)
+    if len(inits) != 1 or inits[0] is None:
+        return False
+    e = inits[0]
+    while e.get('k') in ('mcall',) and e['m'] in ('unwrap', 'expect'):
+        e = e['recv']
+    if e.get('k') == 'call' and e['f'].get('k') == 'path':
+        last = e['f']['segs'][-1]
+        return last == 'new' or last.startswith('from_')
+    return False
+
+
 def memo_cells(ctx):
     """values with RefCell memo fields are only built with empty cells inside their constructor; one writer per cell"""
     p = ctx.prog
@@ -145,7 +170,8 @@ def memo_cells(ctx):
                 if n.get('k') == 'assign' and n['l'].get('k') == 'field' and fn.owner == ty and n['l']['e'].get('k') != 'path':
                     pass
                 # a clone of self whose plain fields are then overwritten keeps stale cells
-                if n.get('k') == 'assign' and n['l'].get('k') == 'field' and n['l']['name'] not in cells and n['l']['e'].get('k') == 'path' and n['l']['e']['segs'] != ['self'] and fn.owner == ty:
+                if n.get('k') == 'assign' and n['l'].get('k') == 'field' and n['l']['name'] not in cells and n['l']['e'].get('k') == 'path' and n['l']['e']['segs'] != ['self'] and fn.owner == ty \
+                        and not _fresh_local(fn, n['l']['e']['segs']):
                     bad.append('%s overwrites field %s of another %s value in place (%s:%s): its memo cells keep answers computed for the old field value' % (fn.qname, n['l']['name'], ty, fn.file, n.get('ln')))
             walk(fn.body, v)
         multi = [(c, sorted(w)) for c, w in writers.items() if len(w) > 1]
